@@ -20,7 +20,10 @@ from props import ALL, accepted, correspond, number, CHECKS, spec_cases, run_bot
 TOKEN_RE = [
     ("OpenSq", re.compile(r"\[")), ("CloseSq", re.compile(r"\]")), ("OpenPar", re.compile(r"\(")),
     ("ClosePar", re.compile(r"\)")), ("Choice", re.compile(r"\|")), ("Rep", re.compile(r"\.\.\.")),
-    ("DblDash", re.compile(r"--(?= |$)")),
+    # (the marker ends like the other tokens: at a blank, a bracket, a parenthesis, a choice bar or the end -- the property
+    # names `--` among the well-formed tokens without asking for a blank after it; until the repair D14 the lexer did, and so
+    # did this table, copied from it)
+    ("DblDash", re.compile(r"--(?=[ \t\[\]()|]|$)")),
     ("LongOpt", re.compile(r"--[A-Za-z0-9_][A-Za-z0-9_\-]*")),
     ("OptSeq", re.compile(r"-[A-Za-z]{2,}+(?!-)")),
     ("ShortOpt", re.compile(r"-[A-Za-z](?![A-Za-z\-])")),
